@@ -122,7 +122,14 @@ TRUSTED = [
 ]
 
 if __name__ == "__main__":
-    main("C06", [PurityStream()],
+    import c10
+
+    class MonitorReread(c10.RereadStream):
+        """an earlier result's monitor read-out is read again after the solver was solved with other values
+        (the stream of C10; a result is a snapshot, monitors included)"""
+        name = "monitor_reread"
+
+    main("C06", [PurityStream(), MonitorReread()],
          level_text="props/C06.v; the tie solves a hierarchy and its (shared) sub-solvers in random order with random "
                     "argument subsets, keeps every result alive, reads each result right after its call and again after all "
                     "later calls, and compares both readings with the model's history-free value for that call; spy leaves "
